@@ -174,13 +174,27 @@ func (e *c14env) resolveRoles() bool {
 		if types.Identical(p.Elem(), r.nodeT) {
 			e.rootF = fld
 		}
-		if n, ok := p.Elem().(*types.Named); ok {
-			if s2, ok := n.Underlying().(*types.Struct); ok {
-				for j := 0; j < s2.NumFields(); j++ {
-					if s2.Field(j).Type().String() == "*github.com/hashicorp/golang-lru.Cache" {
-						r.lvlT = n
-						e.dataF = s2.Field(j)
+	}
+	// the level cache: the struct type of the package with a *lru.Cache field (TopicManager may hold
+	// it directly or behind an interface)
+	for _, name := range scope.Names() {
+		tn, ok := scope.Lookup(name).(*types.TypeName)
+		if !ok {
+			continue
+		}
+		n, ok := tn.Type().(*types.Named)
+		if !ok {
+			continue
+		}
+		if s2, ok := n.Underlying().(*types.Struct); ok {
+			for j := 0; j < s2.NumFields(); j++ {
+				if s2.Field(j).Type().String() == "*github.com/hashicorp/golang-lru.Cache" {
+					if r.lvlT != nil && r.lvlT != n {
+						c.Errorf("anchor: %s: more than one struct type holds a *lru.Cache", mq)
+						return false
 					}
+					r.lvlT = n
+					e.dataF = s2.Field(j)
 				}
 			}
 		}
@@ -234,15 +248,14 @@ func (e *c14env) resolveRoles() bool {
 		}
 	})
 	r.split = e.pick("the topic splitter func(string) ([]string, bool)", "splitTopic", splitC)
-	// get must call split
+	// get must reach the call of split (directly, or through a wrapper such as parseTopic)
 	var getC2 []*ast.FuncDecl
 	for _, fd := range getC {
-		g := flow.NewFunc(e.pkg, fd)
-		for _, call := range calls(fd.Body, false) {
-			if fo, ok := g.Callee(call).(*types.Func); ok && r.split != nil && fo == r.split.obj {
-				getC2 = append(getC2, fd)
-				break
-			}
+		if r.split != nil && reachContains(funcOf(e.pkg, fd), 2, func(h *flow.Func, n ast.Node) bool {
+			call, ok := n.(*ast.CallExpr)
+			return ok && c14calleeOf(h, call) == r.split.obj
+		}) {
+			getC2 = append(getC2, fd)
 		}
 	}
 	// several methods of the level manager may share the work (get -> splitAndCache): the cache
@@ -380,6 +393,27 @@ func (e *c14env) resolveRoles() bool {
 			r.sources[o] = true
 		}
 	})
+	// ... and those that reach a source through a call the shared reach does not follow (a method of
+	// an interface with a single implementation)
+	for changed := true; changed; {
+		changed = false
+		e.decls(func(f *flow.Func, fd *ast.FuncDecl) {
+			o := e.funcObj(fd)
+			if o == nil || r.sources[o] {
+				return
+			}
+			if !c14sig(o.Type().(*types.Signature), []func(types.Type) bool{str}, []func(types.Type) bool{strs, c14isError}) {
+				return
+			}
+			for _, call := range calls(fd.Body, false) {
+				if fo := c14calleeOf(f, call); fo != nil && r.sources[fo] {
+					r.sources[o] = true
+					changed = true
+					return
+				}
+			}
+		})
+	}
 	return true
 }
 
@@ -478,7 +512,7 @@ func c14funcValue(g *flow.Func, id *ast.Ident) (*types.Func, ast.Expr) {
 // c14calleeOf is flow.Func.Callee that also sees through a method value held in a local.
 func c14calleeOf(g *flow.Func, call *ast.CallExpr) *types.Func {
 	if fo, ok := g.Callee(call).(*types.Func); ok {
-		return fo
+		return c14ifaceImpl(fo)
 	}
 	if id, ok := ast.Unparen(call.Fun).(*ast.Ident); ok {
 		fo, _ := c14funcValue(g, id)
@@ -931,4 +965,133 @@ func (e *c14env) lockedBody(f *flow.Func) (*flow.Func, c14wrapper, bool) {
 		}
 	}
 	return nil, c14wrapper{}, false
+}
+
+// c14readOnlyAlias: id is a local variable assigned exactly once, from a selection of field fld
+// (`clients := node.clients`), and only read afterwards (ranged over, indexed on the right-hand side,
+// measured) — a spelling of the field, not an escape. Returns the receiver of the selection.
+func c14readOnlyAlias(f *flow.Func, x ast.Expr, fld *types.Var) (ast.Expr, bool) {
+	id, ok := ast.Unparen(x).(*ast.Ident)
+	if !ok {
+		return nil, false
+	}
+	v, _ := f.Info.Uses[id].(*types.Var)
+	if v == nil {
+		v, _ = f.Info.Defs[id].(*types.Var)
+	}
+	if v == nil || v.IsField() || v.Pkg() == nil || v.Parent() == v.Pkg().Scope() {
+		return nil, false
+	}
+	var rhs ast.Expr
+	defs, written := 0, false
+	pm := parentMap(f.Body)
+	ast.Inspect(f.Body, func(n ast.Node) bool {
+		switch t := n.(type) {
+		case *ast.AssignStmt:
+			for i, l := range t.Lhs {
+				l = ast.Unparen(l)
+				if lid, ok := l.(*ast.Ident); ok && (f.Info.Defs[lid] == v || f.Info.Uses[lid] == v) {
+					defs++
+					if len(t.Lhs) == len(t.Rhs) {
+						rhs = t.Rhs[i]
+					}
+				}
+				if ix, ok := l.(*ast.IndexExpr); ok && c14obj(f, ix.X) == v {
+					written = true
+				}
+			}
+		case *ast.IncDecStmt:
+			if ix, ok := ast.Unparen(t.X).(*ast.IndexExpr); ok && c14obj(f, ix.X) == v {
+				written = true
+			}
+		case *ast.Ident:
+			if f.Info.Uses[t] != v {
+				return true
+			}
+			switch p := pm[t].(type) {
+			case *ast.CallExpr:
+				if !c14isBuiltin(f, p, "len") {
+					written = true // delete / clear / handed to another function
+				}
+			case *ast.UnaryExpr, *ast.ReturnStmt, *ast.CompositeLit, *ast.KeyValueExpr:
+				written = true
+			case *ast.AssignStmt:
+				for _, r := range p.Rhs {
+					if ast.Unparen(r) == ast.Expr(t) {
+						written = true // aliased further
+					}
+				}
+			}
+		}
+		return true
+	})
+	if defs != 1 || written || rhs == nil {
+		return nil, false
+	}
+	return c14fieldRecv(f, rhs, fld)
+}
+
+// c14fieldOrAlias is c14fieldRecv that also accepts a read-only local alias of the field.
+func c14fieldOrAlias(f *flow.Func, x ast.Expr, fld *types.Var) (ast.Expr, bool) {
+	if r, ok := c14fieldRecv(f, x, fld); ok {
+		return r, true
+	}
+	return c14readOnlyAlias(f, x, fld)
+}
+
+var c14implMemo = map[*types.Func]*types.Func{}
+
+// c14ifaceImpl resolves a method of an unexported interface declared in its own package to the
+// method of the single named type of that package that implements the interface (an interface put
+// in front of a dependency with one implementation behind it); any other function is returned as is.
+func c14ifaceImpl(fo *types.Func) *types.Func {
+	if fo == nil || fo.Pkg() == nil {
+		return fo
+	}
+	sig, _ := fo.Type().(*types.Signature)
+	if sig == nil || sig.Recv() == nil {
+		return fo
+	}
+	named, ok := sig.Recv().Type().(*types.Named)
+	if !ok || named.Obj().Pkg() != fo.Pkg() || named.Obj().Exported() {
+		return fo
+	}
+	iface, ok := named.Underlying().(*types.Interface)
+	if !ok {
+		return fo
+	}
+	if r, seen := c14implMemo[fo]; seen {
+		return r
+	}
+	var impl []*types.Func
+	scope := fo.Pkg().Scope()
+	for _, name := range scope.Names() {
+		tn, ok := scope.Lookup(name).(*types.TypeName)
+		if !ok || tn.IsAlias() {
+			continue
+		}
+		t, ok := tn.Type().(*types.Named)
+		if !ok || t == named {
+			continue
+		}
+		if _, isIface := t.Underlying().(*types.Interface); isIface {
+			continue
+		}
+		for _, cand := range []types.Type{t, types.NewPointer(t)} {
+			if types.Implements(cand, iface) {
+				if o, _, _ := types.LookupFieldOrMethod(cand, true, fo.Pkg(), fo.Name()); o != nil {
+					if m, ok := o.(*types.Func); ok {
+						impl = append(impl, m)
+					}
+				}
+				break
+			}
+		}
+	}
+	res := fo
+	if len(impl) == 1 {
+		res = impl[0]
+	}
+	c14implMemo[fo] = res
+	return res
 }
